@@ -39,7 +39,7 @@ class Perm:
         return tuple(zip(self.src, self.flip))
 
     def __repr__(self):
-        return "[" + ", ".join(("-" if f else "+") + MAT[s] for s, f in zip(self.src, self.flip)) + "]"
+        return "[" + ", ".join(("-" if f else "+") + (MAT + "tuvw")[s] for s, f in zip(self.src, self.flip)) + "]"
 
 
 class LayoutFolder(Folder):
@@ -257,6 +257,19 @@ def rule_b(ctx, T_i):
             want = Perm(d, want_src, want_flip)
             ctx.ob(R, fwd.qname, f"dim{d}: layout equals interpret_indexing's signed permutation",
                    isinstance(p, Perm) and p.key() == want.key(), f"helper gives {p}, table prescribes {want}", fwd.node)
+            # arrays with trailing payload axes (time, components): the spatial axes are permuted as above, the payload axis stays last
+            try:
+                p4 = F.call(fwd.node, [Perm(d + 1), d])
+                want4 = Perm(d + 1, want_src + [d], want_flip + [False])
+                if isinstance(p4, Perm):
+                    ctx.ob(R, fwd.qname, f"dim{d}, one trailing payload axis: the spatial axes follow the table, the payload axis stays in place", p4.key() == want4.key(),
+                           f"helper gives {p4}, expected {want4}", fwd.node, evidence=True)
+                q4 = F.call(bwd.node, [Perm(d + 1)] + ([d] if len(bwd.node.args.args) >= 2 else []))
+                if isinstance(p4, Perm) and isinstance(q4, Perm):
+                    ctx.ob(R, bwd.qname, f"dim{d}, one trailing payload axis: the two helpers are mutual inverses", compose(q4, p4).key() == Perm(d + 1).key() and compose(p4, q4).key() == Perm(d + 1).key(),
+                           f"compositions are {compose(q4, p4)} and {compose(p4, q4)}", bwd.node, evidence=True)
+            except (Raised, Refuse):
+                pass
         # inverse
         nparams = len(bwd.node.args.args)
         try:
